@@ -93,6 +93,8 @@ pub struct NalGene {
 pub struct AnnexBFrame {
     pub nals: Vec<NalGene>,
     pub lead_zeros: u8,
+    /// 1..=3: that many zero bytes after the last unit (they belong to it); >= 100: a bare start code (3-byte for 100,
+    /// 4-byte for 101) at the very end of the frame, i.e. an empty trailing unit that must be skipped
     pub trail_zeros: u8,
 }
 
@@ -125,7 +127,15 @@ impl AnnexBFrame {
             out.extend_from_slice(&nal);
             units.push(nal);
         }
-        if self.trail_zeros > 0 {
+        if self.trail_zeros >= 100 {
+            if !units.is_empty() {
+                if self.trail_zeros == 101 {
+                    out.extend_from_slice(&[0, 0, 0, 1]);
+                } else {
+                    out.extend_from_slice(&[0, 0, 1]);
+                }
+            }
+        } else if self.trail_zeros > 0 {
             if let Some(last) = units.last_mut() {
                 for _ in 0..self.trail_zeros {
                     out.push(0);
